@@ -81,6 +81,14 @@ def corpus():
         {"m": "full", "r": 1, "entries": [{"k": 2, "from": 0, "bad": ""}]}, {"m": "batch", "r": 1, "own": False, "deltas": [0, 2], "tombs": []},
         {"m": "prune", "r": 1}, {"m": "get", "r": 1, "k": 2}, {"m": "deliver", "r": 0, "out": 1}, {"m": "get", "r": 0, "k": 2},
         {"m": "tomb", "r": 1, "k": 2, "age": 2 * HOUR, "by": 3, "ptype": 4, "kind": ""}, {"m": "prune", "r": 1}, {"m": "deliver", "r": 1, "out": 2}, {"m": "get", "r": 1, "k": 2}]})
+    # the tombstone overtakes the data: replica 2 (late joiner) and replica 1 receive the tombstone before any delta
+    H.append({"ttl": HOUR, "nrepl": 3, "kind": "corpus-tombstone-first", "msgs": [
+        {"m": "update", "r": 0, "k": 0, "op": "inc", "v": 3}, {"m": "update", "r": 0, "k": 2, "op": "add", "e": 1}, {"m": "delete", "r": 0, "k": 0}, {"m": "delete", "r": 0, "k": 2},
+        {"m": "deliver", "r": 1, "out": 2}, {"m": "deliver", "r": 1, "out": 0}, {"m": "get", "r": 1, "k": 0},
+        {"m": "batch", "r": 2, "own": False, "deltas": [], "tombs": [2, 3]}, {"m": "deliver", "r": 2, "out": 1}, {"m": "deliver", "r": 2, "out": 0},
+        {"m": "update", "r": 2, "k": 0, "op": "inc", "v": 1, "sender": True}, {"m": "get", "r": 2, "k": 0}, {"m": "get", "r": 2, "k": 2},
+        {"m": "tomb", "r": 1, "k": 3, "age": 1000, "by": 3, "ptype": 4, "kind": ""}, {"m": "update", "r": 1, "k": 3, "op": "add", "e": 2}, {"m": "get", "r": 1, "k": 3},
+        {"m": "full", "r": 1, "entries": [{"k": 2, "from": 1, "bad": ""}, {"k": 0, "from": 2, "bad": ""}]}]})
     # batch: a tombstone and deltas of the same key in one batch
     H.append({"ttl": 1, "nrepl": 2, "kind": "corpus-batch", "msgs": [
         {"m": "update", "r": 0, "k": 0, "op": "inc", "v": 1}, {"m": "delete", "r": 0, "k": 0}, {"m": "batch", "r": 1, "own": False, "deltas": [0], "tombs": [1]},
@@ -186,6 +194,8 @@ def run(ctx):
         last = {}            # replica -> last state tree
         tainted = set()      # (replica, key) exposed by a coordinated read while tombstoned
         n_outs = 0
+        all_outs = []        # every captured outgoing message of the history (trees), in order
+        expect = {}          # replica -> {key: deletedAt} tombstones the replica has RECEIVED (or created) and that have not expired
         items, wants, usable = [], [], True
         for i, (m, st) in enumerate(zip(h["msgs"], o["steps"])):
             nsteps += 1
@@ -201,6 +211,36 @@ def run(ctx):
             if m["m"] == "getc" and k in before and (st["resp"] != [3, []] or k in store_keys):
                 tainted.add((r, k))
                 viol(SIG_GET, "coordinated Get on replica %d for tombstoned key k%d returned %s and stored the value" % (r, k, st["resp"]), rep)
+            # ---- a replica that has received a tombstone (whatever it held before, also when it never saw the key:
+            # reordering, late joiner) records it, and keeps the key absent until the tombstone expires
+            got = []                                   # (key, deletedAt) tombstones this step hands to replica r
+            if m["m"] == "delete":
+                got.append((k, None))
+            elif m["m"] == "tomb" and m.get("kind", "") == "" and 1 <= m["ptype"] <= 7 and m["by"] != r:
+                got.append((k, st["at"]))
+            elif m["m"] == "deliver" and all_outs:
+                w = all_outs[m["out"] % len(all_outs)]
+                if w[0] == 2 and w[4] != r:
+                    got.append((w[1], w[3]))
+            elif m["m"] == "batch" and not m["own"] and all_outs:
+                for ix in m["tombs"]:
+                    w = all_outs[ix % len(all_outs)]
+                    if w[0] == 2 and w[4] != r:
+                        got.append((w[1], w[3]))
+            exp_r = expect.setdefault(r, {})
+            for gk, gat in got:
+                if gk not in after:
+                    viol("replicator:received-tombstone-not-recorded:" + m["m"],
+                         "replica %d processed a tombstone for k%d (%s) but does not hold it afterwards%s" %
+                         (r, gk, m["m"], "" if gk in set(e[0] for e in prev[0]) else " (it had never stored the key)"), rep)
+                exp_r[gk] = after[gk][2] if gk in after else (gat if gat is not None else st["lo"])
+            if m["m"] == "prune":
+                for ek in [ek for ek, eat in exp_r.items() if st["hi"] - eat > h["ttl"]]:
+                    del exp_r[ek]
+            for ek in exp_r:
+                if ek in store_keys and ek not in after and (r, ek) not in tainted:
+                    viol("replicator:key-served-after-received-tombstone:" + m["m"],
+                         "replica %d holds a value for k%d after %s although it received a tombstone for it that has not expired" % (r, ek, m["m"]), rep)
             for tk in after:
                 if (tk in store_keys or tk in ver_keys) and (r, tk) not in tainted:
                     viol("replicator:tombstoned-key-in-store:" + m["m"], "after %s replica %d holds a value/version for tombstoned key k%d" % (m["m"], r, tk), rep)
@@ -241,6 +281,7 @@ def run(ctx):
                 items.append(hmsg_coq(m, st, n_outs, h["ttl"]))
                 wants.append([state, st["out"], st["resp"]])
             n_outs += len(st["out"])
+            all_outs += st["out"]
         if items:
             cases.append((h, items, wants))
 
